@@ -312,29 +312,26 @@ def check_spec(desc: tuple) -> Dict[str, Any]:
             # something; an optional namespace not given at all: looked into once the defaults are filled in, or not; a
             # namespace's own default: completed with the defaults inside or taken as it is) give up to six acceptable
             # answers; the implementation has to agree with one of them
-            readings: List[Tuple[bool, Any]] = []
-            for strict, skip_absent in ((False, False), (True, False), (True, True)):
-                for verbatim in (False, True):
-                    for require_ns in (False, True):  # a required, non-populated namespace that was not supplied: missing?
-                        for keep_empty in (False, True):  # {} given for a non-populated namespace: filled in or kept?
-                            try:
-                                readings.append((True, R.accept(desc, copy.deepcopy(given), strict, verbatim, skip_absent,
-                                                                require_ns, keep_empty)))
-                            except R.Rejected as exc:
-                                readings.append((False, str(exc)))
-                            if len(readings) == 1 and not needs_readings(desc):
-                                break  # (nothing in this spec that the readings could differ on)
-                        else:
-                            continue
-                        break
-                    else:
-                        continue
-                    break
-                else:
-                    continue
-                break
+            def reading(strict: bool, verbatim: bool, skip_absent: bool, require_ns: bool, keep_empty: bool) -> Tuple[bool, Any]:
+                try:
+                    return (True, R.accept(desc, copy.deepcopy(given), strict, verbatim, skip_absent, require_ns, keep_empty))
+                except R.Rejected as exc:
+                    return (False, str(exc))
+
+            readings: List[Tuple[bool, Any]] = [reading(False, False, False, False, False)]
+
+            def all_readings() -> List[Tuple[bool, Any]]:
+                # computed only when the implementation does not agree with the first reading
+                if len(readings) == 1 and needs_readings(desc):
+                    for strict, skip_absent in ((False, False), (True, False), (True, True)):
+                        for verbatim in (False, True):
+                            for require_ns in (False, True):  # a required, non-populated namespace not supplied: missing?
+                                for keep_empty in (False, True):  # {} given for a non-populated namespace: filled in or kept?
+                                    if (strict, skip_absent, verbatim, require_ns, keep_empty) != (False, False, False, False, False):
+                                        readings.append(reading(strict, verbatim, skip_absent, require_ns, keep_empty))
+                return readings
+
             want_ok, want = readings[0]
-            verdicts = {ok for ok, _ in readings}
 
             def violate(clause: str, detail: Any = None, **feats: Any) -> None:
                 f = feature_of(desc)
@@ -347,7 +344,7 @@ def check_spec(desc: tuple) -> Dict[str, Any]:
                 got_ok = True
             except Exception as exc:  # noqa: BLE001 - any refusal counts as "construction raises"
                 got_ok, proc, err = False, None, exc
-            if got_ok not in verdicts:
+            if got_ok != want_ok and got_ok not in {ok for ok, _ in all_readings()}:
                 violate('accepts-what-spec-rejects' if got_ok else 'rejects-what-spec-accepts',
                         {'model': want, 'impl': 'constructed' if got_ok else repr(err)})  # type: ignore[possibly-undefined]
                 if proc is not None:
@@ -378,7 +375,7 @@ def check_spec(desc: tuple) -> Dict[str, Any]:
             got = plain(proc.inputs)
             if len(first_accepted) < 3:
                 first_accepted.append((snapshot, copy.deepcopy(got)))
-            if not any(ok and R.prune(got) == R.prune(w) for ok, w in readings):
+            if not (want_ok and R.prune(got) == R.prune(want)) and not any(ok and R.prune(got) == R.prune(w) for ok, w in all_readings()):
                 violate('inputs-differ', {'got': got, 'want': want})
             raw = plain(proc.raw_inputs)
             if raw != snapshot:
